@@ -237,6 +237,27 @@ def lifecycle : Op := fun j => do
       ("possible", jArr (possible.map probeToJson)),
       ("agree", jBool (possible.contains p)),
       ("ok_model", jBool (possible.all (fun q => concurrentCheck false q)))]
+  | "replay" =>
+    -- a run of the real server under the deterministic scheduler: the calls in the order in which they took
+    -- `_running_lock` (each runs to the end of its `with` block: `call`), with the state observed after each
+    let calls ← (← getArr j "calls").mapM opFromJson
+    let stateJ (s : State) : Json := Json.mkObj [("running", jBool s.running), ("server_obj", jBool s.serverObj),
+      ("listening", jBool s.listening), ("thread_ref", jBool s.threadRef), ("thread_alive", jBool s.threadAlive)]
+    let rec go (s : State) : List Lifecycle.Op → List State
+      | [] => []
+      | op :: rest => (call s op).1 :: go (call s op).1 rest
+    let states := go Lifecycle.init calls
+    let final ← getField j "final"
+    let fRunning ← getBool final "running"
+    let fObj ← getBool final "server_obj"
+    let fListening ← getBool final "listening"
+    let fRef ← getBool final "thread_ref"
+    let fAlive ← getBool final "thread_alive"
+    let fs : State := ⟨fRunning, fObj, fListening, fRef, fAlive⟩
+    return Json.mkObj [("states", jArr (states.map stateJ)),
+      ("model_final", stateJ (run Lifecycle.init calls)),
+      ("model_final_consistent", jBool (consistent (run Lifecycle.init calls))),
+      ("impl_final_consistent", jBool (consistent fs))]
   | m => throw s!"bad mode {m}"
 
 def ops : List (String × Op) := [
